@@ -371,8 +371,16 @@ def check_respellings(ctx, rng, mz):
         if "(" in "\n".join(lines[:pos]) and ")" not in "\n".join(lines[:pos]).split("(")[-1]:
             pos = len(lines) - 1
         text3 = "\n".join(lines[:pos] + [noise] + lines[pos:])
-        # an out-of-zone owner must not become the inherited owner of a following blank-owner line: place it last
-        text3 = text + noise + "\n"
+        # continuation lines after it inherit the out-of-zone owner (inherited = explicit owner), so they are ignored too
+        block = [noise] + [rng.choice((" ", "\t", "      ")) + rng.choice(('300 IN TXT "continuation"', "IN 60 A 192.0.2.9", "60 IN MX 5 mail.invalid.", "IN AAAA 2001:db8::9", "77 TXT \"c\""))
+                           for _ in range(rng.choice((0, 1, 1, 2, 3)))]
+        starts = [i for i, l in enumerate(lines) if l and l[0] not in " \t$;"]
+        if kind in ("parenthesised", "comments", "soa-minimum-default") or not starts or rng.random() < 0.25:
+            text3 = text + "\n".join(block) + "\n"  # (kinds where a line may sit inside parentheses, or omit its TTL without a $TTL in force)
+        else:
+            pos = rng.choice(starts)
+            text3 = "\n".join(lines[:pos] + block + lines[pos:])
+        ctx.seen(("out-of-zone-block", len(block), kind))
         try:
             z3 = dns.zone.from_text(text3, origin=origin, relativize=relativize, zone_factory=factory, check_origin=False)
             if GZ.content_of_lib_zone(z3) != want:
